@@ -73,7 +73,7 @@ func scenDispatch(rng *rand.Rand, tr *sim.Trace, seg int, events int) {
 			if m == "announce_peer" || m == "put" {
 				ipk := string(src.IP.To16())
 				if _, ok := toks[ipk]; !ok && rng.Intn(3) != 0 && j == 0 && !h.o.passive {
-					if tok := h.token(src, m == "put"); tok != nil {
+					if tok := h.token(src, m == "put" || !h.o.peerstore); tok != nil { // get_peers hands out tokens only with a peer store
 						toks[ipk] = tok
 					}
 				}
@@ -199,6 +199,15 @@ func scenTokens(rng *rand.Rand, tr *sim.Trace, seg int, events int) {
 			}
 			h.in(from, q)
 			h.settle()
+			if j == tries-1 && rng.Intn(3) == 0 {
+				// the very same write again, long after the token has expired
+				now += 1000
+				h.setClock(now)
+				atomic.StoreInt64(&foreign.clock, now)
+				q.t = h.nextT()
+				h.in(from, q)
+				h.settle()
+			}
 		}
 	}
 }
